@@ -141,6 +141,7 @@ def explore(ctx):
         ctx.sample(meta[0])
     agl_correspondence(ctx, [b for m in meta for _, b in m["impl_rename_map"]])
     compile_level(ctx)
+    default_switch_section(ctx)
     variable_section(ctx)
 
 
@@ -259,6 +260,46 @@ def variable_section(ctx):
                                      "variable font %r: glyph %r is named %r although every source inside it supplies the PostScript name %r" % (
                                          vf, n, final[idx], next(iter(given))))
                     break
+
+
+def default_switch_section(ctx):
+    """the lib switches, when the caller passes no useProductionNames argument: the ufo2ft key decides if present; otherwise
+    names are produced exactly when the font's lib HAS a public.postscriptNames entry (an empty map included -- "this font has
+    been given production names, none differ") and the Glyphs legacy key does not forbid it.  Judged by comparing the glyph
+    names of the default compile with those of the explicit-True and explicit-False compiles (keys stated here literally, not
+    imported from ufo2ft)"""
+    import ufo2ft
+    UPN = "com.github.googlei18n.ufo2ft.useProductionNames"
+    LEGACY = "com.schriftgestaltung.Don't use Production Names"
+    glyphs = [{"name": n, "width": 500, "unicodes": [u] if u else [], "contours": [[(0, 0, "line"), (100 + k, 0, "line"), (50, 100, "line")]]}
+              for k, (n, u) in enumerate([("space", 0x20), ("a", 0x61), ("a.alt", None), ("f_i", None), ("f", 0x66), ("i", 0x69), ("a-cy", 0x430), ("smile", 0x1F600)])]
+    combos = [(u, l, p) for u in (None, True, False) for l in (None, True, False) for p in (None, {}, {"a": "A.prod", "f_i": "fi.prod"})]
+    for i, (u, l, p) in enumerate(combos):
+        for flavor in (("ttf",) if ctx.quick() and i % 3 else ("ttf", "otf")):
+            lib = {}
+            if u is not None:
+                lib[UPN] = u
+            if l is not None:
+                lib[LEGACY] = l
+            if p is not None:
+                lib["public.postscriptNames"] = dict(p)
+            desc = {"glyphs": glyphs, "lib": lib, "kerning": {}, "features": "", "glyphOrder": [g["name"] for g in glyphs]}
+            comp = ufo2ft.compileTTF if flavor == "ttf" else ufo2ft.compileOTF
+            case = {"font_lib": jsonable(lib), "flavor": flavor, "useProductionNames": None}
+            ctx.count(); ctx.klass("default switch: ufo2ft key %r / legacy key %r / postscriptNames %s" % (u, l, "absent" if p is None else "empty" if not p else "given"))
+            ctx.nontriv(("switch", i, flavor))
+            try:
+                got = comp(build_font(desc, ["ufoLib2", "defcon"][i % 2])).getGlyphOrder()
+                on = comp(build_font(desc), useProductionNames=True).getGlyphOrder()
+                off = comp(build_font(desc), useProductionNames=False).getGlyphOrder()
+            except Exception as e:
+                ctx.spec_failure(case, "compile raised %s: %s\n%s" % (type(e).__name__, e, traceback.format_exc()[-1000:]))
+                continue
+            want_on = u if u is not None else (not l and p is not None)
+            if got != (on if want_on else off):
+                ctx.spec_failure(dict(case, names=got, names_when_on=on, names_when_off=off),
+                                 "without an argument the glyph names are %r; the lib switches ask for production names %s, i.e. %r" % (
+                                     got, "ON" if want_on else "OFF", on if want_on else off))
 
 
 def compile_level(ctx):
